@@ -24,6 +24,11 @@ func (x *Exec) isDroppedCall(call *ast.CallExpr) bool {
 		}
 		return false
 	}
+	if sel.Sel.Name == "cancel" || sel.Sel.Name == "cancelF" {
+		if x.selOf(sel) != nil && x.selOf(sel).Kind() == types.FieldVal {
+			return true // context cancel function stored in a field
+		}
+	}
 	if id, ok := sel.X.(*ast.Ident); ok {
 		switch id.Name {
 		case "logger", "log", "trace", "stats", "tag", "span", "wg", "lggr":
@@ -119,6 +124,7 @@ func (x *Exec) resultTypes(call *ast.CallExpr) []types.Type {
 
 func (x *Exec) freshResults(st *State, call *ast.CallExpr, hint string) []Val {
 	var out []Val
+	x.havocTop(st) // the callee may have allocated
 	for _, t := range x.resultTypes(call) {
 		v := x.havocVal(st, hint, t)
 		x.knownRef(st, v)
@@ -226,7 +232,7 @@ func (x *Exec) evCall(st *State, call *ast.CallExpr) []Val {
 		st0 := sig.Params().At(np - 1).Type()
 		srt := x.vc.sortOf(st0)
 		inf := x.vc.info(srt)
-		arr := fmt.Sprintf("((as const (Array %s %s)) %s)", x.vc.intSort(), inf.Elem, x.vc.zero(inf.Elem))
+		arr := x.vc.constArr(x.vc.intSort(), inf.Elem)
 		n := int64(0)
 		for _, a := range args[min(np-1, len(args)):] {
 			arr = fmt.Sprintf("(store %s %s %s)", arr, x.vc.intLit(n), a.T)
@@ -241,9 +247,13 @@ func (x *Exec) evCall(st *State, call *ast.CallExpr) []Val {
 	}
 	var results []Val
 	if fn == nil {
-		// call through a function value: unknown effect
-		x.havocAll(st, "call through function value at "+x.posn(call.Pos()).String())
-		results = x.freshResults(st, call, "fv")
+		// call through a function value: a "fnvalue" contract for the field / parameter, else unknown effect
+		if c := x.fnValueContract(call); c != nil && sig != nil {
+			results = x.applyContractSig(st, call, sig, c.Local, "self", c, nil, args)
+		} else {
+			x.havocAll(st, "call through function value at "+x.posn(call.Pos()).String())
+			results = x.freshResults(st, call, "fv")
+		}
 	} else {
 		results = x.callFunc(st, call, fn, recv, args)
 	}
@@ -450,7 +460,7 @@ func (x *Exec) evBuiltin(st *State, call *ast.CallExpr, name string) []Val {
 		case *types.Slice:
 			n := x.ev(st, call.Args[1])
 			inf := x.vc.info(srt)
-			arr := fmt.Sprintf("((as const (Array %s %s)) %s)", x.vc.intSort(), inf.Elem, x.vc.zero(inf.Elem))
+			arr := x.vc.constArr(x.vc.intSort(), inf.Elem)
 			if x.safety {
 				x.assert(st, "bounds", x.vc.cmp(">=", n.T, x.vc.intLit(0), true), "make: non-negative length", call.Pos())
 			}
@@ -585,7 +595,10 @@ func (x *Exec) callFunc(st *State, call *ast.CallExpr, fn *types.Func, recv *Val
 	if r := fn.Type().(*types.Signature).Recv(); r != nil {
 		_, isIfaceMethod = r.Type().Underlying().(*types.Interface)
 	}
-	if inModule || isIfaceMethod {
+	if isIfaceMethod && !inModule {
+		x.vc.note("method " + key + " of a library interface: assumed not to call back into module state")
+	}
+	if inModule {
 		x.havocAll(st, "call to "+key+" (no contract)")
 	} else {
 		// library call: havoc what it can reach through pointer arguments
@@ -831,15 +844,19 @@ func (x *Exec) inlineLit(st *State, lit *ast.FuncLit, args []Val) []Val {
 
 func (x *Exec) applyContract(st *State, call *ast.CallExpr, fn *types.Func, c *Contract, recv *Val, args []Val) []Val {
 	sig := fn.Type().(*types.Signature)
+	rn := "self"
+	if fd := x.prog.funcDecl(fn); fd != nil && fd.Recv != nil && len(fd.Recv.List) > 0 && len(fd.Recv.List[0].Names) > 0 {
+		rn = fd.Recv.List[0].Names[0].Name
+	} else if sig.Recv() != nil && sig.Recv().Name() != "" {
+		rn = sig.Recv().Name()
+	}
+	return x.applyContractSig(st, call, sig, fn.Name(), rn, c, recv, args)
+}
+
+func (x *Exec) applyContractSig(st *State, call *ast.CallExpr, sig *types.Signature, fnName, rn string, c *Contract, recv *Val, args []Val) []Val {
 	names := map[string]Val{}
 	// receiver name
 	if recv != nil {
-		rn := "self"
-		if fd := x.prog.funcDecl(fn); fd != nil && fd.Recv != nil && len(fd.Recv.List) > 0 && len(fd.Recv.List[0].Names) > 0 {
-			rn = fd.Recv.List[0].Names[0].Name
-		} else if sig.Recv() != nil && sig.Recv().Name() != "" {
-			rn = sig.Recv().Name()
-		}
 		names[rn] = *recv
 		names["self"] = *recv
 	}
@@ -869,11 +886,34 @@ func (x *Exec) applyContract(st *State, call *ast.CallExpr, fn *types.Func, c *C
 	}
 	// frame
 	x.applyModifies(st, c)
-	// results
+	for _, m := range c.Modifies {
+		if !strings.HasPrefix(m, "*") || m == "*" {
+			continue
+		}
+		// *param: the object the pointer argument refers to (type taken from the call site)
+		pn := m[1:]
+		for i := 0; i < sig.Params().Len() && i < len(call.Args); i++ {
+			name := sig.Params().At(i).Name()
+			if i < len(c.Params) {
+				name = c.Params[i]
+			}
+			if name != pn {
+				continue
+			}
+			at := x.typeOf(call.Args[i])
+			if pt, ok := at.Underlying().(*types.Pointer); ok {
+				srt := x.vc.sortOf(pt.Elem())
+				x.heapFor(st, srt)
+				x.havocKey(st, heapKey(srt))
+			}
+		}
+	}
+	// results (the callee may have allocated: the frontier moves before results are bound)
+	x.havocTop(st)
 	rts := x.resultTypes(call)
 	var results []Val
 	for i, rt := range rts {
-		hint := fn.Name()
+		hint := fnName
 		if i < sig.Results().Len() && sig.Results().At(i).Name() != "" {
 			hint = sig.Results().At(i).Name()
 		}
@@ -966,6 +1006,8 @@ func (x *Exec) applyModifies(st *State, c *Contract) {
 					x.lookupHeap(st, key, x.vc.sortOf(obj.Type()))
 					x.havocKey(st, key)
 				}
+			} else if strings.HasPrefix(m, "*") {
+				// handled at the call site (applyContract)
 			} else {
 				panic(unsupported("modifies: unknown item " + m))
 			}
@@ -1006,4 +1048,35 @@ func (x *Exec) tryBoolean(env *specEnv, e *SExpr) (t string, ok bool) {
 		}
 	}()
 	return env.boolean(e), true
+}
+
+// fnValueContract: the assumed contract of a function-typed struct field (Type.field) or of a
+// function-typed parameter of the function under verification (func.param).
+func (x *Exec) fnValueContract(call *ast.CallExpr) *Contract {
+	switch f := unparen(call.Fun).(type) {
+	case *ast.SelectorExpr:
+		sel := x.selOf(f)
+		if sel == nil || sel.Kind() != types.FieldVal {
+			return nil
+		}
+		t := sel.Recv()
+		if p, ok := t.(*types.Pointer); ok {
+			t = p.Elem()
+		}
+		n, ok := t.(*types.Named)
+		if !ok || n.Obj().Pkg() == nil {
+			return nil
+		}
+		return x.prog.specs.Contracts[n.Obj().Pkg().Path()+"."+n.Obj().Name()+"."+f.Sel.Name]
+	case *ast.Ident:
+		if x.contract == nil {
+			return nil
+		}
+		base := x.contract.Local
+		if k := strings.Index(base, "$"); k >= 0 {
+			base = base[:k]
+		}
+		return x.prog.specs.Contracts[x.contract.PkgPath+"."+base+"."+f.Name]
+	}
+	return nil
 }
